@@ -24,7 +24,7 @@ STUBS = ['injectors, taps, scripted distributions, ScriptedRandom replacing onl.
 ASSUMPTIONS = ['workloads use only flows configured in every scheduler on their path', 'a packet is "discarded by the documented '
                'rule" when the element\'s own counter / the scripted loss draw / the routing rule says so; anything else '
                'missing at quiescence is a loss']
-PROBES = ['elem_RED', 'red_drop', 'sched_many_to_one', 'elem_Port', 'elem_Wire', 'elem_TB', 'elem_TRTB', 'elem_SP', 'elem_WFQ', 'elem_VC', 'elem_DRR', 'elem_RR',
+PROBES = ['tick_clock', 'fast_link', 'fib_replaced', 'elem_RED', 'red_drop', 'sched_many_to_one', 'elem_Port', 'elem_Wire', 'elem_TB', 'elem_TRTB', 'elem_SP', 'elem_WFQ', 'elem_VC', 'elem_DRR', 'elem_RR',
           'elem_WRR', 'elem_FlowDemux', 'elem_FIBDemux', 'elem_SimpleSwitch', 'elem_FairSwitch', 'tail_drop', 'wire_loss',
           'no_route', 'fan_in', 'fan_out', 'generator', 'sink_per_src', 'sink_interarrival']
 
@@ -42,11 +42,22 @@ def valid(case):
 
 # ------------------------------------------------------------------------------------------- generation
 
-def gen_stage(rng, flows, allow_fan=True, depth=0):
+def gen_fib_updates(rng, flows, nb):
+    """The operator replaces the forwarding table while traffic flows (routes appear, move and disappear)."""
+    ups = []
+    for _ in range(rng.randint(1, 3)):
+        ups.append([rng.choice([0, 0.5, 1, 2, 4, 8, 16]), [[f, rng.randrange(nb)] for f in flows if rng.random() < 0.8]])
+    return sorted(ups, key=lambda u: u[0])
+
+
+def gen_stage(rng, flows, allow_fan=True, depth=0, tick=False):
     nf = len(flows)
     kinds = ['Port', 'Port', 'RED', 'Wire', 'TB', 'TRTB', 'SP', 'WFQ', 'VC', 'DRR', 'DRR', 'RR', 'WRR']
+    if tick:
+        # integer clock: only elements whose own arithmetic stays in integers
+        kinds = ['Wire', 'Wire']
     if allow_fan:
-        kinds += ['FlowDemux', 'FIBDemux', 'SimpleSwitch', 'FairSwitch']
+        kinds += ['FlowDemux', 'FIBDemux'] if tick else ['FlowDemux', 'FIBDemux', 'SimpleSwitch', 'FairSwitch']
     k = rng.choice(kinds)
     rate = rng.choice(GRID_RATES + [65536, 1 << 20])
     if k == 'Port':
@@ -67,6 +78,9 @@ def gen_stage(rng, flows, allow_fan=True, depth=0):
         return {'t': 'RED', 'rate': rng.choice([1024, 4096, rate]), 'lb': lb, 'min': mn, 'max': mx,
                 'qlimit': mx + rng.choice([0, 1, 2]) * unit, 'maxp': rng.choice([0.1, 0.5, 1.0]), 'wf': rng.choice([0, 1, 2, 9]),
                 'draws': [rng.random() for _ in range(8)]}
+    if k == 'Wire' and tick:
+        return {'t': 'Wire', 'delays': [rng.choice([0, 1, 2, 5, 11]) for _ in range(rng.randint(1, 5))],
+                'loss': rng.choice([None, None, 0.3, 1]), 'draws': [rng.random() for _ in range(8)]}
     if k == 'Wire':
         return {'t': 'Wire', 'delays': [rng.choice([0, 0.125, 0.25, 1, 2]) for _ in range(rng.randint(1, 5))],
                 'loss': rng.choice([None, None, 0.3, 1]), 'draws': [rng.random() for _ in range(8)]}
@@ -95,48 +109,87 @@ def gen_stage(rng, flows, allow_fan=True, depth=0):
         return st
     if k in ('FlowDemux', 'FIBDemux'):
         nb = rng.randint(1, max(1, nf))
-        st = {'t': k, 'branches': [gen_chain(rng, flows, rng.randint(0, 2), False) for _ in range(nb)],
-              'default': gen_chain(rng, flows, rng.randint(0, 1), False) if rng.random() < 0.5 else None}
+        st = {'t': k, 'branches': [gen_chain(rng, flows, rng.randint(0, 2), False, tick) for _ in range(nb)],
+              'default': gen_chain(rng, flows, rng.randint(0, 1), False, tick) if rng.random() < 0.5 else None}
         if k == 'FIBDemux':
             st['fib'] = [[f, rng.randrange(nb)] for f in flows if rng.random() < 0.85]
+            if rng.random() < 0.3:
+                st['fib_updates'] = gen_fib_updates(rng, flows, nb)
         return st
     if k == 'SimpleSwitch':
         return {'t': 'SimpleSwitch', 'nports': rng.randint(1, nf), 'rate': rate, 'buffer': rng.choice([2, 4, 16, 64]),
                 'branches': None}
-    return {'t': 'FairSwitch', 'nports': rng.randint(1, 3), 'rate': rate, 'buffer': rng.choice([2, 4, 16, 64]),
-            'server': rng.choice(['WFQ', 'DRR', 'SP', 'VirtualClock']),
-            'weights': [[f, rng.choice([1, 2, 3])] for f in flows],
-            'fib': [[f, rng.randrange(3)] for f in flows]}
+    st = {'t': 'FairSwitch', 'nports': rng.randint(1, 3), 'rate': rate, 'buffer': rng.choice([2, 4, 16, 64]),
+          'server': rng.choice(['WFQ', 'DRR', 'SP', 'VirtualClock']),
+          'weights': [[f, rng.choice([1, 2, 3])] for f in flows],
+          'fib': [[f, rng.randrange(3)] for f in flows if rng.random() < 0.9]}
+    if rng.random() < 0.3:
+        st['fib_updates'] = gen_fib_updates(rng, flows, 3)
+    return st
 
 
-def gen_chain(rng, flows, n, allow_fan):
+def gen_chain(rng, flows, n, allow_fan, tick=False):
     out = []
     for i in range(n):
-        st = gen_stage(rng, flows, allow_fan and i == n - 1)
+        st = gen_stage(rng, flows, allow_fan and i == n - 1, tick=tick)
         out.append(st)
     return out
 
 
-def gen(rng, tier):
+def _scale_stages(stages, c):
+    """The same pipeline on links 2**k times as fast with every duration divided by 2**k (exact in binary)."""
+    for st in _all_stages(stages):
+        for key in ('rate', 'cir', 'pir', 'peak'):
+            if st.get(key):
+                st[key] = st[key] * int(c)
+        if st.get('delays'):
+            st['delays'] = [d / c for d in st['delays']]
+        if st.get('t') == 'VC':
+            st['table'] = [[k, v / c] for k, v in st['table']]
+        if st.get('fib_updates'):
+            st['fib_updates'] = [[t / c, fib] for t, fib in st['fib_updates']]
+
+
+def gen(rng, tier, plain=False):
     nf = rng.randint(1, 4)
     flows = list(range(nf))
     sources = []
+    r0 = rng.random()
+    tick = r0 < 0.08 and not plain          # an integer clock far from zero (ticks, e.g. nanoseconds since the epoch)
     for s in range(rng.randint(1, 3)):
         if rng.random() < 0.4:
             n = rng.randint(1, 25)
+            gp = [0, 1, 2, 3, 7] if tick else [0, 0.125, 0.25, 1, 2]
             sources.append({'kind': 'gen', 'id': 'g%d' % s, 'flow': rng.choice(flows),
-                            'init': rng.choice([0, 0.5, 1]), 'gaps': [rng.choice([0, 0.125, 0.25, 1, 2]) for _ in range(n)],
+                            'init': rng.choice([0, 4, 1] if tick else [0, 0.5, 1]), 'gaps': [rng.choice(gp) for _ in range(n)],
                             'sizes': [rng.choice(SIZES) for _ in range(n)]})
         else:
             n = rng.randint(1, 40)
             ts = gen_times(rng, n, 'GRID')
             sc = rng.choice([1, 0.25, 4])
             sources.append({'kind': 'inj', 'id': 'i%d' % s,
-                            'workload': [[ts[k] * sc, rng.choice(flows), rng.choice(SIZES)] for k in range(n)]})
+                            'workload': [[int(ts[k] * 8) if tick else ts[k] * sc, rng.choice(flows), rng.choice(SIZES)]
+                                         for k in range(n)]})
     case = {'engine': 'N', 'flows': flows, 'sources': sources,
-            'stages': gen_chain(rng, flows, rng.randint(1, 4), True),
+            'stages': gen_chain(rng, flows, rng.randint(1, 4), True, tick),
             'sink': {'rec_arrivals': rng.random() < 0.8, 'absolute': rng.random() < 0.5, 'rec_waits': rng.random() < 0.8,
                      'by_flow': rng.random() < 0.6}}
+    if tick:
+        case['t0'] = rng.choice([10 ** 12, 2 ** 60 + 1, 1700000000123456789])
+        for st in _all_stages(case['stages']):
+            if st.get('fib_updates'):
+                st['fib_updates'] = [[int(t * 2), fib] for t, fib in st['fib_updates']]
+    elif r0 < 0.2:
+        c = 2.0 ** rng.choice([15, 20, 24])
+        case['fast_link'] = True
+        _scale_stages(case['stages'], c)
+        for s in sources:
+            if s['kind'] == 'gen':
+                s['init'] = s['init'] / c
+                s['gaps'] = [g / c for g in s['gaps']]
+            else:
+                for x in s['workload']:
+                    x[0] = x[0] / c
     return case
 
 
@@ -171,6 +224,23 @@ class Builder:
         self.sinks.append((name, ps))
         return InTap(w, name, ps)
 
+    def retable(self, name, demux, st):
+        """Harness process: assigns the stage's later forwarding tables at their instants (one action each)."""
+        ups = st.get('fib_updates')
+        if not ups:
+            return
+        w, env = self.w, self.w.env
+        t0 = self.case.get('t0', 0)
+
+        def operator():
+            for k, (t, fib) in enumerate(ups):
+                d = t0 + t - env.now
+                if d > 0:
+                    yield env.timeout(d)
+                demux.fib = dict((f, p) for f, p in fib)
+                w.rec('EV', 'fib', name, k)
+        env.process(operator())
+
     def chain(self, stages):
         """Build stages back to front; returns the device upstream should put() into."""
         if not stages:
@@ -189,6 +259,7 @@ class Builder:
                 obj = FlowDemux(tapped, dtap)
             else:
                 obj = FIBDemux(outs=tapped, fib=dict((f, p) for f, p in st.get('fib', [])), default_out=dtap)
+                self.retable(name, obj, st)
             node = Node(name, t, obj, st)
             self.nodes.append(node)
             return InTap(w, name, obj)
@@ -230,6 +301,7 @@ class Builder:
             obj = FairPacketSwitch(env, st['nports'], st['rate'], st['buffer'], dict((f, v) for f, v in st['weights']),
                                    st['server'], element_id=name)
             obj.demux.fib = dict((f, p) for f, p in st.get('fib', []))
+            self.retable(name, obj.demux, st)
             for i, sch in enumerate(obj.ports):
                 sch.out = OutTap(w, '%s>%d' % (name, i), obj, nxt if i == 0 else self.chain(rest))
         else:
@@ -279,7 +351,9 @@ def build_pipeline(w, case):
                 g.out = OutTap(w, s['id'] + '>', g, head)
                 gens.append((s, g))
             else:
-                start_injector(w, head, [tuple(x) for x in s.get('workload', [])], src=s.get('id', 'src'))
+                t0 = case.get('t0', 0)
+                start_injector(w, head, [tuple([t0 + x[0]] + list(x[1:])) for x in s.get('workload', [])],
+                               src=s.get('id', 'src'))
     except BaseException:
         restore()
         raise
@@ -287,7 +361,7 @@ def build_pipeline(w, case):
 
 
 def run(case):
-    w = NetWorld()
+    w = NetWorld(case.get('t0', 0))
     env = w.env
     b, gens, restore = build_pipeline(w, case)
     try:
@@ -313,8 +387,28 @@ def _all_stages(stages):
 
 # ------------------------------------------------------------------------------------------- checking
 
+def _fib_at(node, evs):
+    """Returns f(G) -> forwarding table in force for a packet handed in by action G."""
+    tabs = [(-1, dict((f, p) for f, p in node.spec.get('fib', [])))]
+    ups = node.spec.get('fib_updates') or []
+    for g, k in evs.get(node.name, []):
+        tabs.append((g, dict((f, p) for f, p in ups[k][1])))
+
+    def at(G):
+        cur = tabs[0][1]
+        for g, tab in tabs:
+            if g < G:
+                cur = tab
+        return cur
+    return at
+
+
 def check(w, case, b, gens):
     viol, stats = [], {}
+    evs = {}
+    for r in w.log:
+        if r[0] == 'EV' and r[3] == 'fib':
+            evs.setdefault(r[4], []).append((r[1], r[5]))
     ins = {}      # node name -> list of (G, t, pkt, fields)
     outs = {}     # node name -> list of (G, t, pkt, fields, tapname)
     draws = {}
@@ -380,10 +474,12 @@ def check(w, case, b, gens):
             why = '%d packets of flows without an output and no default' % allowed
             stats['fan_out'] = 1
         elif t == 'FIBDemux':
-            fib = dict((f, p) for f, p in node.spec.get('fib', []))
+            fib = _fib_at(node, evs)
             nb = len(node.spec.get('branches', []))
-            allowed = sum(1 for g, tt, pkt, f in I if not (f[1] in fib and 0 <= fib[f[1]] < nb)) \
+            allowed = sum(1 for g, tt, pkt, f in I if not (f[1] in fib(g) and 0 <= fib(g)[f[1]] < nb)) \
                 if node.spec.get('default') is None else 0
+            if evs.get(nm):
+                stats['fib_replaced'] = 1
             why = '%d packets of unknown flows and no default' % allowed
             stats['fan_out'] = 1
         elif t == 'SimpleSwitch':
@@ -391,9 +487,11 @@ def check(w, case, b, gens):
                 sum(1 for g, tt, pkt, f in I if not (0 <= f[1] < len(node.obj.ports)))
             why = 'port drops + flows without a port = %d' % allowed
         elif t == 'FairSwitch':
-            fib = dict((f, p) for f, p in node.spec.get('fib', []))
+            fib = _fib_at(node, evs)
             allowed = sum(p.packets_dropped for p in node.obj.egress_ports) + \
-                sum(1 for g, tt, pkt, f in I if not (f[1] in fib and 0 <= fib[f[1]] < len(node.obj.ports)))
+                sum(1 for g, tt, pkt, f in I if not (f[1] in fib(g) and 0 <= fib(g)[f[1]] < len(node.obj.ports)))
+            if evs.get(nm):
+                stats['fib_replaced'] = 1
             why = 'egress drops + unrouted flows = %d' % allowed
         if allowed and t in ('FlowDemux', 'FIBDemux', 'SimpleSwitch', 'FairSwitch') and 'flows' in why:
             stats['no_route'] = 1
@@ -410,11 +508,11 @@ def check(w, case, b, gens):
             pos.setdefault(pkt, k)
         last = {}
         for g, tt, pkt, f, tap in O:
-            fl = f[1]
+            fl = (f[1], tap)         # per output: a flow whose route was replaced may overtake itself across outputs
             if pkt in pos:
                 if fl in last and pos[pkt] < last[fl][0]:
                     viol.append(('C08.3', '%s: packet %s of flow %r left after %s although it entered earlier' %
-                                 (nm, pkt, fl, last[fl][1])))
+                                 (nm, pkt, fl[0], last[fl][1])))
                     break
                 last[fl] = (pos[pkt], pkt)
     if len(case.get('sources', [])) >= 2:
@@ -423,8 +521,7 @@ def check(w, case, b, gens):
     for s, g in gens:
         stats['generator'] = 1
         O = outs.get(s['id'], [])
-        t = w.env.now * 0 + s.get('init', 0) + 0   # kernel: timeout(initial_delay) from t0=0
-        t = 0 + s.get('init', 0)
+        t = case.get('t0', 0) + s.get('init', 0)
         gaps, sizes = s.get('gaps', []), s.get('sizes', []) + [64]
         if len(O) != len(gaps):
             viol.append(('C08.5', 'generator %s emitted %d packets for %d inter-arrival draws' % (s['id'], len(O), len(gaps))))
@@ -470,6 +567,10 @@ def check(w, case, b, gens):
             if idx not in by and ps.packets_received[idx]:
                 viol.append(('C08.5', 'sink %s counts %d packets for index %r that were never delivered to it' %
                              (name, ps.packets_received[idx], idx)))
+    if case.get('t0'):
+        stats['tick_clock'] = 1
+    if case.get('fast_link'):
+        stats['fast_link'] = 1
     nontrivial = total >= 5 and len(b.nodes) >= 2
     return viol, stats, nontrivial
 
